@@ -150,6 +150,17 @@ def gen_project(rng):
             class_annos.append({"name": "Table", "args": [("name", '"t_x"')]})
         if rng.random() < 0.1:
             class_annos.append({"name": "SuppressWarnings", "args": '"unchecked"'})
+        if kind == "class" and rng.random() < 0.3:
+            # a Spring controller: the API scan of C07's runs then has entries to compare
+            class_annos.append({"name": rng.choice(["RestController", "Controller"]), "args": None})
+            if rng.random() < 0.6:
+                class_annos.append({"name": "RequestMapping", "args": rng.choice(['"/base%d"' % len(units), [("value", '"/v%d"' % len(units))]])})
+            for mb in members:
+                if mb["kind"] == "method" and rng.random() < 0.6:
+                    mb["annos"] = list(mb["annos"]) + [rng.choice([
+                        {"name": "GetMapping", "args": '"/g"'}, {"name": "PostMapping", "args": [("value", '"/p"')]},
+                        {"name": "RequestMapping", "args": [("value", '"/r"'), ("method", "RequestMethod.PUT")]},
+                        {"name": "DeleteMapping", "args": None}])]
         units.append({"pkg": pk, "imports": imports, "annos": class_annos, "kind": kind, "name": nm, "ext": ext, "impls": impls,
                       "fields": fields, "members": members, "_scope": dict(scope)})
     return units
@@ -261,6 +272,14 @@ def project_case(rng):
     if rng.random() < 0.3:
         extra["src/test/java/x/SkipTest.java"] = "package x; public class SkipTest { void t() { run(); } }\n"
         extra["notes/readme.java.txt"] = "class Nope {}"
+    if rng.random() < 0.3:
+        # ignored files: matched by the .gitignore at the root of the analysed tree (a directory pattern, a name pattern,
+        # a path pattern), and anything under a path containing `testData`
+        extra[".gitignore"] = "generated/\n*Gen.java\n/legacy/old\n# a comment\n\n"
+        extra["generated/x/Made.java"] = "package x; public class Made { void m() { run(); } }\n"
+        extra["src/main/java/x/StubGen.java"] = "package x; public class StubGen { void g() { } }\n"
+        extra["legacy/old/Old.java"] = "package old; public class Old { int f() { return 1; } }\n"
+        extra["src/testData/x/Sample.java"] = "package x; public class Sample { }\n"
     files.update(extra)
     return {"op": "full", "files": files, "units": [{"path": b["path"], "events": b["events"], "ievents": b["facts"]["ievents"]} for b in built],
             "identKeys": [b["unit"]["pkg"] + "." + b["unit"]["name"] for b in built],
@@ -316,7 +335,7 @@ def oracle_c07(case, out, raw):
         return [("panic", "analysis panicked at %s: %s" % ((raw or {}).get("site"), (raw or {}).get("panic")))]
     ds = []
     key_of_path = {t["path"]: (t["pkg"], t["name"]) for t in case["truth"]}
-    seen_full, seen_ident, seen_bs, seen_bsproj = {}, {}, {}, {}
+    seen_full, seen_ident, seen_bs, seen_api = {}, {}, {}, {}
     for ri, (run, res) in enumerate(zip(case["runs"], out["runs"])):
         for p in set(run):
             reps = run.count(p)
@@ -333,6 +352,16 @@ def oracle_c07(case, out, raw):
                 elif seen_full[p][1] != txt:
                     ds.append(("c07-full-entry-differs", "model entries of %s differ between run %d %s and run %d %s: %s" % (
                         p, seen_full[p][0], case["runs"][seen_full[p][0]], ri, run, first_diff(json.loads(seen_full[p][1]), ch))))
+            # the API entries of the file (the API scan over the run's files in the run's order), per run position
+            for pos, q in enumerate(run):
+                if q != p or not isinstance(res.get("api"), list) or pos >= len(res["api"]):
+                    continue
+                txt = json.dumps(res["api"][pos], sort_keys=True)
+                if p not in seen_api:
+                    seen_api[p] = (ri, txt)
+                elif seen_api[p][1] != txt:
+                    ds.append(("c07-api-entry-differs", "API entries of %s differ between run %d %s and run %d %s: %s vs %s" % (
+                        p, seen_api[p][0], case["runs"][seen_api[p][0]], ri, run, seen_api[p][1][:300], txt[:300])))
             # what the bad-smell pass produced for the file (its node) and the findings that name it, per run position
             for pos, q in enumerate(run):
                 if q != p or not isinstance(res.get("bs"), list) or pos >= len(res["bs"]):
@@ -354,6 +383,10 @@ def oracle_c07(case, out, raw):
                 elif seen_ident[p][1] != txt:
                     ds.append(("c07-ident-entry-differs", "identifier entries of %s differ between run %d %s and run %d %s: %s" % (
                         p, seen_ident[p][0], case["runs"][seen_ident[p][0]], ri, run, first_diff(json.loads(seen_ident[p][1]), idm[:len(idm) // reps]))))
+        # a call graph and a reverse call graph generated twice in a row over the run's model
+        for k in ("callTwice", "rcallTwice"):
+            if res.get(k) is False:
+                ds.append(("c07-graph-twice-differs", "%s: generating the graph twice in one process gave two different graphs (run %d %s)" % (k, ri, run)))
     return dedup(ds)
 
 
@@ -394,7 +427,7 @@ RULES = {
             "(shadowing each other legally), static Type.m(), chained a.b().c(), this.field.m(), with nested call / creation / literal arguments; "
             "positions at any column and line"),
     "C07": ("same projects; per tree 6-7 runs in ONE process with the identifier set held fixed: sorted order, a random permutation, reversed, a random subset in random "
-            "order, one file alone, one file twice, and the first run again; the per-file entries of the full pass, of the identifier pass and of the bad-smell pass (real BadSmellApp on a directory laid out in the run's order) must be identical in every run"),
+            "order, one file alone, one file twice, and the first run again; the per-file entries of the full pass, of the identifier pass, of the bad-smell pass (real BadSmellApp on a directory laid out in the run's order: node and findings of the file) and of the API scan (real JavaApiApp likewise; 30% of the classes are Spring controllers) must be identical in every run; in every run a call graph and a reverse call graph are generated twice in a row and must be equal"),
 }
 ASSUMPTIONS = ["generated Java is legally scoped (a local may hide a field, not a parameter or an enclosing local; an initializer does not mention its own variable)",
                "a receiver's declared type counts as 'plain class name' only without type arguments or array brackets",
